@@ -7,7 +7,8 @@
    statement, or as an operand of an expression being evaluated by an Emit).
    The predicate over-approximates run-time behaviour: every branch of an If,
    every entry point of a Switch (with fall-through), and every finite number
-   of Loop iterations is a path, whatever the data.  Safety statements
+   of Loop iterations is a path, whatever the data (a continuing block takes part in
+   a further iteration only when it completes normally: `continue` is not allowed there).  Safety statements
    ("on every path ...") proved over it therefore hold for every execution. *)
 From Coq Require Import List ZArith String Bool.
 Import ListNotations.
@@ -130,11 +131,11 @@ with path_loop : list stmt -> list stmt -> option nat -> list event -> outcome -
 | pl_exit_cont body cont bi e1 o1 e2 o2 o' :
     path_block body e1 o1 -> loop_exit o1 = None -> path_block cont e2 o2 -> loop_exit o2 = Some o' ->
     path_loop body cont bi (e1 ++ e2) o'
-| pl_break_if body cont c e1 o1 e2 o2 :
-    path_block body e1 o1 -> loop_exit o1 = None -> path_block cont e2 o2 -> loop_exit o2 = None ->
+| pl_break_if body cont c e1 o1 e2 :
+    path_block body e1 o1 -> loop_exit o1 = None -> path_block cont e2 ONormal ->
     path_loop body cont (Some c) (e1 ++ e2 ++ [EvUse c]) ONormal
-| pl_again body cont bi e1 o1 e2 o2 e3 o :
-    path_block body e1 o1 -> loop_exit o1 = None -> path_block cont e2 o2 -> loop_exit o2 = None ->
+| pl_again body cont bi e1 o1 e2 e3 o :
+    path_block body e1 o1 -> loop_exit o1 = None -> path_block cont e2 ONormal ->
     path_loop body cont bi e3 o ->
     path_loop body cont bi (e1 ++ e2 ++ map EvUse (opt_list bi) ++ e3) o.
 
